@@ -109,7 +109,7 @@ func (fe functionExpr) CompletionAtPos(ctx context.Context, pos hcl.Pos) []lang.
 	case *hclsyntax.FunctionCallExpr:
 		if eType.NameRange.ContainsPos(pos) {
 			prefix := functionNamePrefix(fe.pathCtx, eType.NameRange, eType.Name, pos)
-			editRange := eType.Range()
+			editRange := closedRange(eType.Range())
 			return fe.matchingFunctions(prefix, editRange)
 		}
 
